@@ -50,12 +50,16 @@ def _worker_batch(prop: str, tier: str, verif_seed: int, indices: Sequence[int],
     out = {"digests": [], "ops": Counter(), "faults": Counter(), "probes": Counter(), "states": set(),
            "schedules": set(), "oracle_evals": 0, "events": 0, "runs": 0, "nontrivial": 0,
            "violations": [], "errors": [], "known_seen": Counter(), "samples": [], "sim_time": 0,
-           "validated": 0, "crash_points": 0, "escaped_runs": 0, "configs": Counter()}
+           "validated": 0, "crash_points": 0, "escaped_runs": 0, "configs": Counter(), "slowest": (0.0, -1)}
     for idx in indices:
         faulthandler.dump_traceback_later(per_run_timeout, exit=True)
         seed = derive_seed(verif_seed, prop, idx)
+        t_run = time.time()
         r = execute(prop, mach.run, seed, None, tier, kf, idx)
         faulthandler.cancel_dump_traceback_later()
+        t_run = time.time() - t_run
+        if t_run > out["slowest"][0]:
+            out["slowest"] = (round(t_run, 2), idx)
         out["runs"] += 1
         out["ops"].update(r.ops)
         out["faults"].update(r.faults)
@@ -275,7 +279,7 @@ def run_batch(prop: str, tier: str, verif_seed: int, workers: int | None = None,
     agg = {"digest_set": set(), "ops": Counter(), "faults": Counter(), "probes": Counter(), "states": set(),
            "schedules": set(), "oracle_evals": 0, "events": 0, "runs": 0, "nontrivial": 0, "errors": [],
            "known_seen": Counter(), "samples": [], "sim_time": 0, "validated": 0, "crash_points": 0,
-           "escaped_runs": 0}
+           "escaped_runs": 0, "slowest": (0.0, -1)}
     violations: list[dict] = []
     t0 = time.time()
     next_index = 0
@@ -325,6 +329,8 @@ def run_batch(prop: str, tier: str, verif_seed: int, workers: int | None = None,
                     agg["samples"].extend(o["samples"])
                 agg["errors"].extend(o["errors"])
                 violations.extend(o["violations"])
+                if tuple(o["slowest"]) > tuple(agg["slowest"]):
+                    agg["slowest"] = tuple(o["slowest"])
             if broken:
                 break
             while len(pending) < workers * 2 and submit():
@@ -365,7 +371,7 @@ def run_batch(prop: str, tier: str, verif_seed: int, workers: int | None = None,
     print(f"[{prop}] runs={agg['runs']} nontrivial_distinct={len(agg['digest_set'])} "
           f"oracle_evals={agg['oracle_evals']} states={len(agg['states'])} "
           f"faults={dict(agg['faults'])} wall={wall_s:.1f}s ({int(agg['runs'] / max(wall_s, 1e-9) * 3600)} runs/h) "
-          f"evidence={path} exit={exit_code}" + (f" ZERO-PROBES={zero_probes}" if zero_probes else ""), flush=True)
+          f"slowest_run={agg['slowest'][0]}s@index{agg['slowest'][1]} evidence={path} exit={exit_code}" + (f" ZERO-PROBES={zero_probes}" if zero_probes else ""), flush=True)
     return exit_code
 
 
